@@ -35,7 +35,7 @@ theorem normalized_no_cr (env : Env) (u : Str) (P : Parsed) (sp : Split)
   have ht := parse_tail_plain env u P h
   rw [hnorm]
   intro hm
-  have hrb : '\r' ∉ rebracket P.host := by
+  have hrb : '\r' ∉ rebracket sp.netloc P.host := by
     intro hc
     unfold rebracket at hc
     split at hc
@@ -45,7 +45,7 @@ theorem normalized_no_cr (env : Env) (u : Str) (P : Parsed) (sp : Split)
       · exact hhost hc
       · exact absurd hc (by decide)
     · exact hhost hc
-  have hnl : '\r' ∉ authorityOf (rebracket P.host) P.port := by
+  have hnl : '\r' ∉ authorityOf (rebracket sp.netloc P.host) P.port := by
     intro hc
     unfold authorityOf at hc
     split at hc
@@ -69,34 +69,43 @@ theorem normalized_no_cr (env : Env) (u : Str) (P : Parsed) (sp : Split)
   · exact absurd h1 (by decide)
   · exact hqq h1
 
-/-- **C19 `wire_roundtrip`**: if the client accepts the caller's URL and its normalised form still fits
-    the request-size limit, the server parses the request line to exactly the caller's components -/
+/-- **C19 `wire_roundtrip`**: whenever the client sends a request for the caller's URL, the server —
+    whatever else follows on the connection — parses the request line to exactly the caller's components -/
 theorem wire_roundtrip (env : Env) (hl : AsciiLower env) (hip : IpStable env) (maxReq : Nat) (u w extra : Str)
     (P : Parsed) (sp : Split)
     (hsp : urlsplit env u = .ok sp) (hascii : ∀ c ∈ sp.netloc, c.toNat < 128)
-    (hP : parseUrl env u = .ok P) (hshape : ':' ∈ P.host ∨ '[' ∉ P.host)
-    (hw : clientWire env maxReq u = .ok w)
-    (hfit : utf8Len P.normalized + 2 ≤ maxReq) :
+    (hP : parseUrl env u = .ok P)
+    (hw : clientWire env maxReq u = .ok w) :
     w = P.normalized ++ crlf ∧ serverParse env maxReq (w ++ extra) = .ok P := by
-  have hw' : w = P.normalized ++ crlf := by
-    unfold clientWire validated at hw
+  have hv : validated env maxReq u = .ok P := by
+    unfold clientWire at hw
+    unfold validated at hw ⊢
     split at hw
     · simp at hw
     · rename_i Q hQ
       split at hQ
       · simp at hQ
-      · rw [hP] at hQ
-        simp only at hQ
-        injection hQ with hQ
-        subst hQ
-        injection hw with hw
-        exact hw.symm
-  refine ⟨hw', ?_⟩
+      · rename_i hlen
+        rw [if_neg hlen, hP]
+  have hfix := norm_idem_ascii env hl hip u P sp hsp hascii hP
+  have hw2 : validated env maxReq P.normalized = .ok P ∧ w = P.normalized ++ crlf := by
+    unfold clientWire at hw
+    rw [hv] at hw
+    simp only at hw
+    split at hw
+    · simp at hw
+    · rename_i Q hQ
+      injection hw with hw
+      refine ⟨?_, hw.symm⟩
+      unfold validated at hQ ⊢
+      split at hQ
+      · simp at hQ
+      · rename_i hlen
+        rw [if_neg hlen, hfix]
+  refine ⟨hw2.2, ?_⟩
   have hcr := normalized_no_cr env u P sp hsp hP (fun hm => by have := host_safe_ascii env hl u P sp hsp hascii hP _ hm; simp [isUnsafe] at this)
   unfold serverParse
-  rw [hw', cutCRLF_line _ _ hcr]
-  simp only
-  unfold validated
-  rw [if_neg (by omega), norm_idem_ascii env hl hip u P sp hsp hascii hshape hP]
+  rw [hw2.2, cutCRLF_line _ _ hcr]
+  exact hw2.1
 
 end Url
